@@ -445,6 +445,8 @@ def run_o_along(inp):
     tb = H.TangentVector(H.Point(pvec.copy()), np.array(inp["b"]["v"])).normalized()
     x2 = tb.point_along(inp["t2"])
     ang = float(np.asarray(mk2(pvec, v1).angle(tb)).reshape(-1)[0])
+    # the angle does not depend on the lengths of the tangent vectors
+    ang_scaled = float(np.asarray(mk2(pvec, 3.7 * v1).angle(mk2(pvec, 0.4 * np.array(tb.vector, dtype=float)))).reshape(-1)[0])
     ang_self = float(np.asarray(mk2(pvec, v1).angle(mk2(pvec, 2.5 * v1))).reshape(-1)[0])
     ang_anti = float(np.asarray(mk2(pvec, v1).angle(mk2(pvec, -0.5 * v1))).reshape(-1)[0])
     c = _d(x1, x2)
@@ -453,7 +455,7 @@ def run_o_along(inp):
     dq = _d(p, Qp)
     tq = p.unit_tangent_towards(Qp)
     end = tq.point_along(dq)
-    return {"d1": d1, "rank3": float(sv[-1]), "ang": ang, "ang_self": ang_self, "ang_anti": ang_anti, "c": c, "d2": _d(p, x2),
+    return {"d1": d1, "rank3": float(sv[-1]), "ang": ang, "ang_self": ang_self, "ang_anti": ang_anti, "ang_scaled": ang_scaled, "c": c, "d2": _d(p, x2),
             "end": np.array(end.coords("klein"), dtype=float).tolist(), "dq": dq,
             "unit": float(G.mink(np.array(tq.vector, dtype=float), np.array(tq.vector, dtype=float)))}
 
@@ -474,6 +476,8 @@ def judge_o_along(inp, obs, lr):
     rhs = math.cosh(t1) * math.cosh(t2) - math.sinh(t1) * math.sinh(t2) * math.cos(obs["ang"])
     if not abs(lhs - rhs) <= 1e-6 * (1 + abs(rhs)):
         return {"expected": {"law of cosines rhs": rhs}, "observed": lhs, "tags": {"what": "law_of_cosines"}}
+    if not abs(obs["ang_scaled"] - obs["ang"]) <= 1e-7:
+        return {"expected": {"angle independent of the vectors' lengths": obs["ang"]}, "observed": obs["ang_scaled"], "tags": {"what": "angle", "unequal_lengths": True}}
     if not (abs(obs["ang_self"]) <= 1e-6 and abs(obs["ang_anti"] - math.pi) <= 1e-6):
         return {"expected": "angle 0 between parallel, pi between opposite tangent vectors (degenerate triangle in the law of cosines)",
                 "observed": [obs["ang_self"], obs["ang_anti"]],
@@ -542,6 +546,124 @@ def judge_o_poly(inp, obs, lr):
     return None
 
 
+# ---- histories: query, transform / overwrite, query again (derived isometries must follow the object) -------------
+HIST_OPS = ["origin_to", "point_along", "isometry_to", "transform", "transform_apply", "set", "normalized", "angle"]
+
+
+def gen_o_history(rng, n):
+    for _ in range(n):
+        dim = rng.choice([2, 2, 3, 4, 5])
+        steps = []
+        for _ in range(rng.randint(3, 7)):
+            op = rng.choice(HIST_OPS)
+            st = {"op": op, "fo": rng.random() < 0.5}
+            if op in ("transform", "transform_apply"):
+                st["g"] = G.float_iso(rng, dim, k=2, tmax=1.0).tolist()
+            elif op == "set":
+                st["tv"] = rand_tv(rng, dim)
+            elif op == "point_along":
+                st["t"] = rng.uniform(-2.5, 2.5)
+            elif op == "isometry_to":
+                st["tv"] = rand_tv(rng, dim)
+            elif op == "angle":
+                st["v"] = [rng.gauss(0, 1) for _ in range(dim + 1)]
+                st["scale"] = rng.uniform(0.2, 5)
+            steps.append(st)
+        # every history ends with the three queries, so that whatever happened before is observed
+        steps += [{"op": "origin_to", "fo": rng.random() < 0.5}, {"op": "point_along", "t": rng.uniform(-2.5, 2.5), "fo": True},
+                  {"op": "isometry_to", "tv": rand_tv(rng, dim), "fo": rng.random() < 0.5}]
+        yield {"dim": dim, "start": rand_tv(rng, dim), "steps": steps, "obj": rng.choice(["tangent", "tangent", "point"])}
+
+
+def _tv_state(tv):
+    """(point, unit direction) of a tangent vector read off its *data* only (no library queries)"""
+    d = np.array(tv.proj_data, dtype=float)
+    p, v = d[..., 0, :].copy(), d[..., 1, :].copy()
+    w = v - p * (G.mink(v, p) / G.mink(p, p))
+    return p, w / math.sqrt(G.mink(w, w))
+
+
+def run_o_history(inp):
+    dim = inp["dim"]
+    bt = H.TangentVector.get_base_tangent(dim)
+    o = H.Point.get_origin(dim)
+    tv = mk_tv(inp["start"])
+    log = []
+    for k, st in enumerate(inp["steps"]):
+        op = st["op"]
+        if inp["obj"] == "point":
+            # the same history on the basepoint alone: Point.origin_to after transformations
+            pt = H.Point(np.array(tv.point, dtype=float).copy()) if k == 0 else pt
+            if op in ("transform", "transform_apply"):
+                g = H.Isometry(np.array(st["g"]))
+                pt = (g @ pt) if op == "transform" else g.apply(pt)
+            elif op == "set":
+                pt.set(np.array(mk_tv(st["tv"]).point, dtype=float).copy())
+            want = np.array(pt.proj_data, dtype=float).copy()
+            img = np.array((pt.origin_to(force_oriented=st.get("fo", True)) @ o).proj_data, dtype=float)
+            log.append({"k": k, "op": op, "what": "point.origin_to", "ok": G.proj_equal(img, want, 1e-7)})
+            continue
+        if op == "transform":
+            tv = H.Isometry(np.array(st["g"])) @ tv
+        elif op == "transform_apply":
+            tv = H.Isometry(np.array(st["g"])).apply(tv)
+        elif op == "set":
+            new = mk_tv(st["tv"])
+            tv.set(np.array(new.proj_data, dtype=float).copy())
+        elif op == "normalized":
+            p0, d0 = _tv_state(tv)
+            tv = tv.normalized()
+            p1, d1 = _tv_state(tv)
+            log.append({"k": k, "op": op, "what": "normalized keeps point and direction",
+                        "ok": G.proj_equal(p1, p0, 1e-8) and G.parallel_pos(d1, d0, 1e-7)})
+        elif op == "origin_to":
+            p0, d0 = _tv_state(tv)
+            img = tv.origin_to(force_oriented=st["fo"]) @ bt
+            log.append({"k": k, "op": op, "what": "origin_to: base tangent -> this vector",
+                        "ok": G.proj_equal(np.array(img.point, dtype=float), p0, 1e-7)
+                        and G.parallel_pos(np.sign(np.array(img.point)[0]) * np.sign(p0[0]) * np.array(img.vector, dtype=float), d0, 1e-6)})
+        elif op == "point_along":
+            p0, d0 = _tv_state(tv)
+            x = tv.normalized().point_along(st["t"])
+            xd = np.array(x.proj_data, dtype=float)
+            dist = _d(H.Point(p0.copy()), x)
+            A = np.stack([p0 / np.linalg.norm(p0), d0 / np.linalg.norm(d0), xd / np.linalg.norm(xd)])
+            log.append({"k": k, "op": op, "what": "point_along: distance |t| on the geodesic of this vector",
+                        "ok": abs(dist - abs(st["t"])) <= 1e-6 and np.linalg.svd(A, compute_uv=False)[-1] <= 1e-7,
+                        "dist": dist, "t": st["t"]})
+        elif op == "isometry_to":
+            p0, d0 = _tv_state(tv)
+            other = mk_tv(st["tv"])
+            p1, d1 = _tv_state(other)
+            I = tv.isometry_to(other, force_oriented=st["fo"])
+            m = np.array(I.proj_data, dtype=float)
+            ip, idir = p0 @ m, d0 @ m
+            sg = np.sign(ip[0]) * np.sign(p1[0])
+            log.append({"k": k, "op": op, "what": "isometry_to carries this vector to the other",
+                        "ok": G.proj_equal(ip, p1, 1e-7) and G.parallel_pos(sg * idir, d1, 1e-6)})
+        elif op == "angle":
+            p0, d0 = _tv_state(tv)
+            v = np.array(st["v"])
+            w = v - p0 * (G.mink(v, p0) / G.mink(p0, p0))
+            c = G.mink(w, d0) / math.sqrt(G.mink(w, w))
+            a = float(np.asarray(tv.angle(H.TangentVector(H.Point(p0.copy()), st["scale"] * v))).reshape(-1)[0])
+            log.append({"k": k, "op": op, "what": "angle (vectors of different lengths)", "ok": abs(math.cos(a) - c) <= 1e-7})
+    return {"log": log}
+
+
+def judge_o_history(inp, obs, lr):
+    ops = [st["op"] for st in inp["steps"]]
+    if "exc" in obs:
+        return {"expected": "history runs", "observed": obs, "tags": {"exc": obs["exc"], "ops": ops[:6]}}
+    for e in obs["log"]:
+        if not e["ok"]:
+            before = ops[:e["k"]]
+            return {"expected": e["what"], "observed": e,
+                    "tags": {"what": e["op"], "after_transform": any(o in ("transform", "transform_apply", "set") for o in before),
+                             "after_query": any(o in ("origin_to", "point_along", "isometry_to") for o in before), "obj": inp["obj"]}}
+    return None
+
+
 CLAUSES = [
     Clause("origin_corr", "corr", gen_origin, run_origin, judge_origin, lean=lean_origin, site="hyperbolic.Point.origin_to",
            budget={"quick": 120, "thorough": 3000},
@@ -566,6 +688,10 @@ CLAUSES = [
            budget={"quick": 150, "thorough": 5000}, what="base tangent -> positive multiple; isometry_to carries basepoint and direction"),
     Clause("along_oracle", "oracle", gen_o_along, run_o_along, judge_o_along, site="hyperbolic.TangentVector.point_along",
            budget={"quick": 200, "thorough": 8000}, what="|t| along a unit tangent (both signs), on the geodesic, law of cosines, towards q reaches q"),
+    Clause("history_oracle", "oracle", gen_o_history, run_o_history, judge_o_history, site="hyperbolic.TangentVector.origin_to",
+           budget={"quick": 150, "thorough": 5000},
+           what="histories of 6-10 steps on one tangent vector / point: queries (origin_to, point_along, isometry_to, angle with unequal lengths, normalized) "
+                "interleaved with transformations (iso @ tv, iso.apply) and set(); every query is judged against the object's current data"),
     Clause("polygon_oracle", "oracle", gen_o_poly, run_o_poly, judge_o_poly, site="hyperbolic.Polygon.regular_polygon",
            budget={"quick": 60, "thorough": 2000}, what="regular n-gon n=3..12: n vertices, equal radii, equal sides, interior angle, radius/angle inverse"),
 ]
